@@ -245,3 +245,192 @@ def gen(rng, kind):
         ops.append('open')
     ops += ['readP', 'readS', 'abort', 'closeP', 'open', 'readP', 'readS', 'peekP', 'peekS']
     return dict(kind=kind, n=2, ops=ops, family='multidb')
+
+
+# =====================================================================================================
+# family 'explicit': one database, a connection opened with transaction.TransactionManager(explicit=True).
+# Touching a persistent object outside begin()/commit() is refused (NoTransaction) — and a refused
+# registration must have no effect: the connection takes part in the next transaction as usual.
+#     begin | commit | abort | mod v | read | close | open | peek
+# Observation:  <result> | X:<G|U|C>[=<v>]     (object X: a c11_classes.Node under root['x'])
+# =====================================================================================================
+class World3:
+    def __init__(self, case, tmpdir, tag):
+        import ZODB
+        import transaction
+        from c11_classes import Node
+        self.st = make_storage(case['kind'], tmpdir, tag)
+        self.db = ZODB.DB(self.st)
+        self.tm = transaction.TransactionManager(explicit=True)
+        self.conn = self.db.open(self.tm)
+        self.tm.begin()
+        self.conn.root()['x'] = Node()
+        self.tm.commit()
+        self.tm.begin()
+        self.X = self.conn.root()['x']
+        self.X.v                    # loaded
+        self.tm.abort()
+
+    def close(self):
+        for f in (self.tm.abort, self.db.close):
+            try:
+                f()
+            except Exception:
+                pass
+
+    def vector(self):
+        ch = self.X._p_changed
+        s = 'X:%s' % ('G' if ch is None else ('C' if ch else 'U'))
+        if ch is not None:
+            s += '=%s' % self.X.__dict__.get('v', '?')
+        return s
+
+    def run_op(self, op):
+        import transaction
+        t = op.split()
+        try:
+            if t[0] == 'begin':
+                self.tm.begin()
+                r = 'ok'
+            elif t[0] == 'commit':
+                self.tm.commit()
+                r = 'ok'
+            elif t[0] == 'abort':
+                self.tm.abort()
+                r = 'ok'
+            elif t[0] == 'mod':
+                self.X.v = int(t[1])
+                r = 'ok'
+            elif t[0] == 'read':
+                r = 'v=%d' % self.X.v
+            elif t[0] == 'close':
+                self.conn.close()
+                r = 'ok'
+            elif t[0] == 'open':
+                # (the pool may hand out another connection than the one closed before: fetch the object
+                # through the connection we got, as the next user of a pooled connection does)
+                self.conn = self.db.open(self.tm)
+                self.X = self.conn.root()['x']
+                r = 'ok'
+            elif t[0] == 'peek':
+                tmx = transaction.TransactionManager()
+                c = self.db.open(tmx)
+                try:
+                    r = 'v=%d' % c.root()['x'].v
+                finally:
+                    tmx.abort()
+                    c.close()
+            else:
+                r = 'bad-op'
+        except Exception as e:
+            r = 'err:' + type(e).__name__
+        return r + ' | ' + self.vector()
+
+
+def run_real_x(case, tmpdir, tag):
+    import shutil
+    w = World3(case, tmpdir, tag)
+    try:
+        out = ['ok | ' + w.vector()]
+        for op in case['ops']:
+            out.append(w.run_op(op))
+        return out
+    finally:
+        w.close()
+        shutil.rmtree(os.path.join(tmpdir, 'fs-' + tag), ignore_errors=True)
+
+
+def judge_x(case, real):
+    com = vis = 0
+    intxn = dirty = closed = False
+    for idx, op in enumerate(case['ops'], 1):
+        res, vec = real[idx].split(' | ')
+        t = op.split()
+        k = t[0]
+        if closed and k not in ('open', 'peek'):
+            return ('taint', idx)
+        if k == 'begin':
+            if intxn:
+                exp = 'err:AlreadyInTransaction'
+            else:
+                exp, intxn, vis = 'ok', True, com
+        elif k == 'commit':
+            if not intxn:
+                exp = 'err:NoTransaction'
+            else:
+                exp, com, intxn, dirty = 'ok', vis, False, False
+        elif k == 'abort':
+            if not intxn:
+                exp = 'err:NoTransaction'
+            else:
+                exp, vis, intxn, dirty = 'ok', com, False, False
+        elif k == 'mod':
+            if not intxn:
+                exp = 'err:NoTransaction'       # refused, and nothing changes
+            else:
+                exp, vis, dirty = 'ok', int(t[1]), True
+        elif k == 'read':
+            exp = 'v=%d' % vis
+        elif k == 'close':
+            if intxn:
+                return ('taint', idx)           # (closing inside an explicit transaction: not generated)
+            exp, closed = 'ok', True
+        elif k == 'open':
+            if not closed:
+                return ('taint', idx)
+            exp, closed = 'ok', False
+        elif k == 'peek':
+            exp = 'v=%d' % com
+        else:
+            return ('taint', idx)
+        if res != exp:
+            return (idx, 'C11:explicit:%s:result' % k, 'op %r returned %r, the property requires %r' % (op, res, exp))
+        if closed:
+            continue
+        st = vec[2]
+        val = vec[4:] if len(vec) > 3 else None
+        if dirty and st != 'C':
+            return (idx, 'C11:explicit:%s:modified-object-not-changed' % k,
+                    'the object was modified but _p_changed is %s after %r' % (st, op))
+        if not dirty and st == 'C':
+            return (idx, 'C11:explicit:%s:object-not-clean' % k, 'the object is marked changed after %r' % op)
+        if st != 'G' and val != str(vis):
+            return (idx, 'C11:explicit:%s:value' % k, 'the object shows %s, expected %d after %r' % (val, vis, op))
+    return None
+
+
+def gen_x(rng, kind):
+    ops = []
+    intxn = closed = False
+    for _ in range(rng.choice([5, 8, 12, 16])):
+        v = rng.randrange(1, 10)
+        if closed:
+            ops.append(rng.choice(['open', 'open', 'peek']))
+            closed = ops[-1] != 'open'
+            continue
+        r = rng.random()
+        if r < 0.22:
+            ops.append('begin')
+            intxn = True
+        elif r < 0.47:
+            ops.append('mod %d' % v)            # inside or outside a transaction
+        elif r < 0.57:
+            ops.append('read')
+        elif r < 0.72:
+            ops.append('commit')
+            intxn = False
+        elif r < 0.84:
+            ops.append('abort')
+            intxn = False
+        elif r < 0.92 and not intxn:
+            ops.append('close')
+            closed = True
+        else:
+            ops.append('peek')
+    if closed:
+        ops.append('open')
+    if intxn:
+        ops.append('abort')
+    ops += ['begin', 'mod 11', 'commit', 'peek', 'begin', 'mod 12', 'abort', 'begin', 'read', 'abort', 'close', 'open',
+            'peek']
+    return dict(kind=kind, n=1, ops=ops, family='explicit')
